@@ -194,4 +194,36 @@ def run_c02(out):
         if r0.violated != inv:
             raise core.MachineryError(f"{cfg} should violate {inv}, got {r0.violated}")
         out.parts[key + "_refuted_by_TLC"] = {"violated": r0.violated, "states": r0.generated}
+    staircase(out)
     _run(out, C02_QUICK if out.tier == "quick" else C02_THOROUGH)
+
+
+def staircase(out):
+    """F28 (open): a non-winding on-axis component whose unwrapped axial extent exceeds the three-fold padded image.  TLC
+    refutes PeriodicCorrect for the spec's model of the implementation on exactly this image; the real code is run on it
+    and, as long as it cuts the component, the violation is reported under the finding's signature."""
+    core.setup_repo_import()
+    from pde import CylindricalSymGrid, ScalarField
+
+    from droplets import image_analysis
+
+    r0 = core.tlc("MC_LocateSym", "MC_LocateSym_dev_cylp_staircase.cfg", timeout=600)
+    if r0.violated != "PeriodicCorrect":
+        raise core.MachineryError(f"dev_cylp_staircase should violate PeriodicCorrect, got {r0.violated}")
+    out.parts["staircase_longer_than_padding_refuted_by_TLC"] = {"violated": r0.violated, "states": r0.generated}
+    nr, nz = 14, 4
+    for h, z0 in ((0.25, 0.0), (0.1, 0.013)):
+        grid = CylindricalSymGrid(nr * h, (z0, z0 + nz * h), (nr, nz), periodic_z=True)
+        m = np.zeros((nr, nz), bool)
+        for i in range(nr - 1):
+            m[i, i % nz] = True
+            m[i, (i + 1) % nz] = True
+        res = image_analysis.locate_droplets_in_mask(ScalarField(grid, m, dtype=bool))
+        vol_r, dz = grid.cell_volume_data
+        true = float((np.outer(vol_r, dz) * m).sum())
+        out.evaluations += 1
+        if len(res) != 1 or abs(float(res[0].volume) - true) > 1e-9 * true:
+            out.violation({"config": "dev_cylp_staircase", "h": h, "z0": z0, "mask": [list(map(int, c)) for c in np.argwhere(m)],
+                           "fails": [f"{len(res)} droplets with volumes {[float(d.volume) for d in res]} for one on-axis component of "
+                                     f"volume {true} (a staircase around the periodic axis, 3.5 periods long, not winding)"]},
+                          signature="cylp-nonwinding-longer-than-padding")
